@@ -60,6 +60,69 @@ def random_case(g, n):
     ops.append(("dump",))
     return ops
 
+def rest_mix_case(seed):
+    """socket sessions subscribe; writes arrive over the REST front end and over the sockets, interleaved: a subscriber gets its
+    event whichever front end the change came through"""
+    import random, sessionops
+    from restcheck import rest_line
+    r = random.Random(seed)
+    R = sessionops.R
+    ops = ["cfg auth=0", "open 0", "open 1", "open 2"]
+    tid = {0: 0, 1: 0, 2: 0}
+    def t(s): tid[s] += 1; return tid[s]
+    ops.append(R(("send", 0, {"subscribe": {"transactionId": t(0), "key": "a/b", "unique": r.random() < 0.5}})))
+    ops.append(R(("send", 1, {"pSubscribe": {"transactionId": t(1), "requestPattern": r.choice(["a/#", "a/?", "a/b/#"]), "unique": r.random() < 0.5}})))
+    ops.append(R(("send", 2, {"subscribeLs": {"transactionId": t(2), "parent": r.choice([None, "a"])}})))
+    val = lambda: r.choice([1, 2, "s", {"k": [1]}, True])
+    for _ in range(r.randint(6, 20)):
+        x = r.random(); k = r.choice(["a/b", "a/c", "b", "a/b/c"])
+        if x < 0.30: ops.append(rest_line("none", "set", k, val()))
+        elif x < 0.40: ops.append(rest_line("none", "delete", k))
+        elif x < 0.48: ops.append(rest_line("none", "pdelete", r.choice(["a/?", "a/#", "b"])))
+        elif x < 0.55: ops.append(rest_line("none", "publish", k, val()))
+        elif x < 0.62: ops.append(rest_line("none", "import", None, {"data": {"t": {"a": {"t": {r.choice(["b", "i"]): {"v": val()}}}}}}))
+        elif x < 0.70: ops.append(rest_line("none", "get", k))
+        elif x < 0.85:
+            s_ = r.randrange(3); ops.append(R(("send", s_, {"set": {"transactionId": t(s_), "key": k, "value": val()}})))
+        elif x < 0.92:
+            s_ = r.randrange(3); ops.append(R(("send", s_, {"delete": {"transactionId": t(s_), "key": k}})))
+        else:
+            ops.append(R(("send", 0, {"unsubscribe": {"transactionId": 1}})))
+    ops.append(rest_line("none", "pget", "a/#"))
+    return ops
+
+def run_rest_mix(v, tier, seed, work):
+    import sessionops
+    n = 12 if tier == "quick" else 200
+    cases = [(f"mix{i}", rest_mix_case(seed * 433494437 + i)) for i in range(n)]
+    cpath = os.path.join(work, "restmix.txt")
+    write_cases(cpath, cases)
+    impl, model = run_engine("session", "session_driver", cpath, work, tag="-restmix")
+    A, B = read_obs(impl), read_obs(model)
+    def canon(line):
+        if line == "ok": return line
+        items = line.split(" ")
+        rest = [x for x in items if x.startswith("rest:")]
+        other = " ".join(x for x in items if x and not x.startswith("rest:"))
+        # (an export's body is the subject of C09; here only its status)
+        rest = [("rest:200:export" if x.startswith("rest:200:j") and False else x) for x in rest]
+        return " ".join(rest) + " | " + (sessionops.canon_session_line(other) if other else "")
+    events = 0
+    for nm, ops in cases:
+        la = A.get(nm, []); lb = B.get(nm, [])
+        if len(la) < len(ops) or la[0] != "ok":
+            v.violation({"what": "the session engine did not complete this case", "case": nm, "engine": "session", "driver": "session_driver", "ops": ops, "broken_obligation": "correspondence session+rest/C03"}, no_input=True)
+            return {}
+        events += sum(l.count(":j") for l in la)
+        for i, (x, y) in enumerate(zip(la, lb)):
+            if canon(x) != canon(y):
+                # the independent statement: a REST write that was served and concerns a live subscription is followed by its event
+                v.violation({"what": "a write over the REST front end and the events of socket subscribers: server and model disagree", "case": nm, "engine": "session", "driver": "session_driver",
+                             "ops": ops[:i + 1], "impl": x[:800], "model": y[:800],
+                             "broken_obligation": "correspondence session+rest/C03 (Model/RestWorld.v wrest over Model/Session.v route_events)"}, no_input=True)
+                return {}
+    return {"rest_mix_cases": len(cases), "rest_mix_messages": events}
+
 def run(v, tier, seed):
     work = os.path.join(WORK, ID); os.makedirs(work, exist_ok=True)
     cases = list(CORPUS)
@@ -108,6 +171,8 @@ def run(v, tier, seed):
         v.violation({"what": "model and implementation disagree; the event specification accepts every observed trace", "case": name,
                      "ops": [render(o) for o in ops[:step + 1]], "step": step, "impl": decode_tok(x), "model": decode_tok(y), "disagreeing_cases": len(diffs),
                      "broken_obligation": "correspondence core/C03 (Model/Core.v notify, do_subscribe, do_psubscribe; Model/Subs.v)"}, no_input=True)
-    v.cov.update({"evaluations": ncases, "distinct_nontrivial": len(nontrivial), "steps": nsteps, "disagreements": len(diffs), "events_observed": nev,
+    mix = run_rest_mix(v, tier, seed, work) if not v.violations else {}
+    v.cov.update({"evaluations": ncases, "distinct_nontrivial": len(nontrivial), "steps": nsteps, "disagreements": len(diffs), "events_observed": nev, **mix,
+                  "rest_mix_rule": "three socket sessions of a real in-process server subscribe (key, pattern, ls); sets, deletes, pattern deletes, publishes, imports arrive over the REST front end, interleaved with socket writes: the REST answer and every message on every socket are compared with Model/RestWorld.v (a REST request runs on the one core, its traffic is routed to the sessions)",
                   "rule": f"corpus + every history of <= {L} writes over a {len(WRITES)}-op alphabet with a subscription (6 key/pattern shapes x unique x live-only) inserted at every position, unsubscribe inserted in a third of them ({n_exh} histories) + {nrand} random histories (subscribe/psubscribe/unsubscribe/spub/publish/import mixed with writes, several clients); non-trivial = at least two events delivered",
                   "samples": samples})
